@@ -28,7 +28,7 @@ def caller_contexts():
     return [None, fp.REAL, fp.MPFloatContext(3), fp.MPFixedContext(-1), fp.IEEEContext(3, 6, fp.RM.RTZ)]
 
 
-class Timeout(Exception):
+class Timeout(BaseException):
     pass
 
 
@@ -41,7 +41,7 @@ def run_real(fn, args, ctx, limit: int = 5):
     import copy
     a = copy.deepcopy(args)
     signal.signal(signal.SIGALRM, _alarm)
-    signal.alarm(limit)
+    signal.setitimer(signal.ITIMER_REAL, limit, 1.0)      # keeps firing if the first one is swallowed
     try:
         r = fn(*a) if ctx is None else fn(*a, ctx=ctx)
         out = {'val': value_json(r)}
@@ -56,7 +56,7 @@ def run_real(fn, args, ctx, limit: int = 5):
     except Exception as e:      # noqa: BLE001
         out = {'err': type(e).__name__}
     finally:
-        signal.alarm(0)
+        signal.setitimer(signal.ITIMER_REAL, 0)
     return out
 
 
